@@ -38,8 +38,8 @@ ASSUMPTIONS = [
     "append(image, offset) documents the stored time of the appended slice as its own time plus offset",
 ]
 FLOORS = {
-    "quick": {"block_data": 2500, "placement": 2500, "time_stamps": 1000, "physical_equals_voxel_box": 300, "stack_roundtrip": 300, "sibling_extractions": 300},
-    "thorough": {"block_data": 30000, "placement": 30000, "time_stamps": 12000, "physical_equals_voxel_box": 3000, "stack_roundtrip": 3000, "sibling_extractions": 3000},
+    "quick": {"block_data": 2500, "placement": 2500, "time_stamps": 1000, "physical_equals_voxel_box": 300, "stack_roundtrip": 300, "sibling_extractions": 300, "roi_object_reused": 100},
+    "thorough": {"block_data": 30000, "placement": 30000, "time_stamps": 12000, "physical_equals_voxel_box": 3000, "stack_roundtrip": 3000, "sibling_extractions": 3000, "roi_object_reused": 1000},
 }
 
 
@@ -333,6 +333,17 @@ def run_shard(spec, R):
                         judge_child(R, sib, sp, extent, scase, cls)
                         judge_child(R, child, p, extent, {**case, "rejudged_after_sibling": True}, cls)
                         R.count("sibling_extractions")
+            # the very same corner-voxel object is used once more, on the (larger or equal) root image: it still means
+            # the box it was built as
+            if op == "sub_voxels" and step % 2 == 1:
+                lo_r = [max(0, min(int(np.min(pts[:, d])), int(meta["shape"][d]))) for d in range(dim)]
+                hi_r = [max(0, min(int(np.max(pts[:, d])), int(meta["shape"][d]))) for d in range(dim)]
+                ok4, again = R.guarded("sub_voxels", lambda: root.subregion(va))
+                if ok4:
+                    exp_blk = root_arr[tuple(slice(lo_r[d], hi_r[d]) for d in range(dim))]
+                    R.check(again.img.shape == exp_blk.shape and np.array_equal(again.img, exp_blk), "block_data",
+                            lambda: {**case, "what": "corner-voxel object re-used on the root image", "got_shape": list(again.img.shape), "exp_shape": list(exp_blk.shape)}, group="roi_object_reused")
+                    R.count("roi_object_reused")
             # physical box == voxel box of its converted corners
             if op == "sub_coords":
                 vox_box = cur.coordinatesystem.voxel(ca)
